@@ -50,6 +50,16 @@ def gen(rng, tier, ctx):
         if rng.random() < 0.08:
             nm = nm + "_no_prune"
         pool.append({"name": nm, "desc": e, "tag": tag})
+    if rng.random() < 0.3 and n >= 2:
+        # a twin of another game of the pool that differs in one type or one value only
+        src = rng.randrange(n)
+        dst = rng.choice([i for i in range(n) if i != src])
+        base = dec(pool[src]["desc"])
+        try:
+            twin = pools.bad_game(rng, base, rng.choice(pools.BAD_RULES + ("succ_float_same", "succ_float_same", "prob_int_as_float")))
+            pool[dst] = {"name": pool[dst]["name"], "desc": enc(twin), "tag": pool[src]["tag"] + "+twin"}
+        except Exception:
+            pass
     if klass == "collision":
         pool[1]["name"] = pool[0]["name"] + "_no_prune"
     else:
